@@ -22,8 +22,11 @@ META = {
             "tile of the region is visited exactly once with the right data before the taskpool completes, and that "
             "reductions equal the sequential fold.",
     "note": "Model box 3x3 tiles (quick) / 4x4 (thorough), all uplo. Real runs: seeded random shapes <= 6x6 (quick) / 8x8 "
-            "tiles, grids 1x1, 2x1, 1x2, 2x2, k-cyclic factors 1-2, 1/2/4/8 threads. Interleavings of the scheduler are "
-            "sampled, not enumerated. Trusted: TLC, the ndjson recorder.",
+            "tiles, grids 1x1, 2x1, 1x2, 2x2, k-cyclic factors 1-2, 1/2/4/8 threads; plus map_operator on a 1 x N tile row "
+            "(N ~ 4000 quick / 20000 thorough, 4 threads on 1 process and 3 threads on each of 2 processes, a few "
+            "rounds) where the per-tile invocation counts are accumulated in memory and logged as count arrays. "
+            "Interleavings of the scheduler are sampled, not enumerated (races in the column hand-out of map_operator "
+            "are caught with high probability, not certainty). Trusted: TLC, the ndjson recorder.",
     "technique": "TLA+ abstract machine + transcribed execution spaces (TLC) + trace validation of real taskpool runs",
 }
 
@@ -32,14 +35,15 @@ def scn_line(s):
     return " ".join("%s=%s" % (k, v) for k, v in s.items())
 
 
-def run_group(ctx, exe, scns, nranks, cores, tag, timeout=300, env=None):
+def run_group(ctx, exe, scns, nranks, cores, tag, timeout=300, env=None, mpi_extra=()):
     """Run one process group on a scenario list; returns one execution (event list) per scenario."""
     sp = os.path.join(ctx.scratch, "scn-%s.txt" % tag)
     with open(sp, "w") as f:
         for s in scns:
             f.write(scn_line(s) + "\n")
     pref = os.path.join(ctx.scratch, "op-%s" % tag)
-    cmd = ([] if nranks == 1 else vbuild.mpirun(nranks)) + [exe, sp, pref, str(cores)]
+    mpi = [] if nranks == 1 else vbuild.mpirun(nranks)
+    cmd = mpi[:1] + list(mpi_extra if mpi else ()) + mpi[1:] + [exe, sp, pref, str(cores)]
     rc, out, err = ctx.run_cmd(cmd, timeout=timeout, env=env)
     per_rank = []
     for r in range(nranks):
@@ -61,7 +65,7 @@ def run_group(ctx, exe, scns, nranks, cores, tag, timeout=300, env=None):
         done = 0
         for by in per_rank:
             evs = by.get(k, [])
-            ex.extend(ev for ev in evs if ev.get("e") in ("visit", "result"))
+            ex.extend(ev for ev in evs if ev.get("e") in ("visit", "counts", "result"))
             done += sum(1 for ev in evs if ev.get("e") == "done")
         if done == nranks:
             ex.append({"e": "finish"})
@@ -94,6 +98,20 @@ def shapes(rng, n, mx, grids, ops=("apply", "map")):
     return out
 
 
+def miscounted(ex):
+    """For the violation message only (the verdict is OperatorsTrace's): tiles of a mapcount run whose count is not 1."""
+    run = ex[0]
+    if run.get("op") != "mapcount":
+        return None
+    tot = {}
+    for ev in ex:
+        if ev.get("e") == "counts":
+            for j, c in enumerate(ev["c"]):
+                tot[(ev["m"], ev["n0"] + j)] = tot.get((ev["m"], ev["n0"] + j), 0) + c
+    bad = [[m, n, tot.get((m, n), 0)] for m in range(run["mt"]) for n in range(run["nt"]) if tot.get((m, n), 0) != 1]
+    return {"tiles_with_count_not_1": len(bad), "first [m,n,count]": bad[:8]}
+
+
 def run(ctx):
     d = ctx.stage("Dist")
     exe = ctx.harness("op_run", ["harness/operators/op_run.c"])
@@ -112,6 +130,12 @@ def run(ctx):
               ("r1c4", 1, 4, shapes(rng, n1, big, [(1, 1)])),
               ("r2c2", 2, 2, shapes(rng, nm, big, [(2, 1), (1, 2)])),
               ("r4c1", 4, 1, shapes(rng, nm, big, [(2, 2)]))]
+    # many SHORT columns (a 1 x N tile row): the threads claim the next column of map_operator.c (next_n) thousands of
+    # times per run, several of them at the same moment; visits are counted in memory, one summary per run
+    nwide, rounds = (4000, 4) if ctx.quick else (20000, 10)
+    wide = {"op": "mapcount", "uplo": "full", "mt": 1, "nt": nwide, "mb": 1, "P": 1, "Q": 1, "kp": 1, "kq": 1}
+    groups += [("r1c4w", 1, 4, [dict(wide, nt=nwide + 37 * k) for k in range(rounds)]),
+               ("r2c3w", 2, 3, [dict(wide, nt=nwide + 37 * k, Q=2, kq=1 + k % 2) for k in range(rounds - 1)])]
     if not ctx.quick:
         groups += [("r1c8", 1, 8, shapes(rng, n1, big, [(1, 1)])),
                    ("r3c2", 3, 2, shapes(rng, nm, big, [(3, 1), (1, 3)])),
@@ -133,22 +157,33 @@ def run(ctx):
         t.start()
     exs = []
     for tag, nr, cores, scns in groups:
-        got = run_group(ctx, exe, scns, nr, cores, tag, timeout=600)
+        # Open MPI pins each of 2 ranks to one core by default: the threads of the wide runs must really run in parallel
+        got = run_group(ctx, exe, scns, nr, cores, tag, timeout=600, mpi_extra=("--bind-to", "none") if tag.endswith("w") else ())
         exs.extend(got)
         ctx.extra["runs_" + tag] = len(got)
     for t in th:
         t.join()
     ctx.evaluations = len(exs) + len(known)
-    ctx.extra["operator_invocations"] = sum(1 for e in exs for ev in e if ev.get("e") == "visit")
+    ctx.extra["operator_invocations"] = (sum(1 for e in exs for ev in e if ev.get("e") == "visit")
+                                         + sum(sum(ev["c"]) for e in exs for ev in e if ev.get("e") == "counts"))
+    ctx.extra["wide_map_runs"] = sum(1 for e in exs if e[0].get("op") == "mapcount")
     if exs:
-        small = min((e for e in exs if len(e) > 3), key=len)
+        small = min((e for e in exs if len(e) > 3 and e[0].get("op") != "mapcount"), key=len)
         ctx.sample({"run": small[0], "events": small[1:4], "n_events": len(small)})
+        wides = [e for e in exs if e[0].get("op") == "mapcount" and e[0].get("ranks", 1) > 1]
+        if wides:
+            w = wides[0]
+            ctx.sample({"run": w[0], "count_records": sum(1 for ev in w if ev.get("e") == "counts"),
+                        "invocations": sum(sum(ev["c"]) for ev in w if ev.get("e") == "counts"),
+                        "first_record": {k: (v[:12] if k == "c" else v) for k, v in
+                                         next(ev for ev in w if ev.get("e") == "counts").items()}})
         multi = [e for e in exs if e[0].get("ranks", 1) > 1]
         if multi:
             ctx.sample({"run": multi[0][0], "n_events": len(multi[0])})
     for f in ctx.validate("Dist", "OperatorsTrace", "OperatorsTrace.cfg", exs, batch=60, timeout=1500):
+        mis = miscounted(f.execution)
         ctx.violation("operator taskpool run not explained by Operators.tla (tile missed / visited twice / wrong data / "
-                      "did not complete): %s" % json.dumps(f.describe())[:1500],
+                      "did not complete): %s%s" % (json.dumps(mis) + " " if mis else "", json.dumps(f.describe())[:1500]),
                       {"events": f.execution, "detail": f.describe()})
     for i, (key, nr, cores, s, env) in enumerate(known):
         bad = []
